@@ -1,0 +1,121 @@
+//go:build verif
+
+package dns
+
+import "strings"
+
+// Add-only wrappers for the verification harness (property C05, presentation
+// text). They expose unexported helpers of types.go, scan.go and scan_rr.go
+// without changing behaviour.
+
+// VerifC05SprintName is sprintName.
+func VerifC05SprintName(s string) string { return sprintName(s) }
+
+// VerifC05SprintTxt is sprintTxt.
+func VerifC05SprintTxt(txt []string) string { return sprintTxt(txt) }
+
+// VerifC05SprintTxtOctet is sprintTxtOctet.
+func VerifC05SprintTxtOctet(s string) string { return sprintTxtOctet(s) }
+
+// VerifC05NextByte is nextByte.
+func VerifC05NextByte(s string, offset int) (byte, int) { return nextByte(s, offset) }
+
+// VerifC05EscapedStringOffset is escapedStringOffset.
+func VerifC05EscapedStringOffset(s string, n int) (int, bool) { return escapedStringOffset(s, n) }
+
+// VerifC05TypeToInt is typeToInt, VerifC05ClassToInt is classToInt.
+func VerifC05TypeToInt(token string) (uint16, bool)  { return typeToInt(token) }
+func VerifC05ClassToInt(token string) (uint16, bool) { return classToInt(token) }
+
+// VerifC05PackTxtString runs packTxtString on a fresh buffer and returns the
+// octets written (length octet included).
+func VerifC05PackTxtString(s string) ([]byte, error) {
+	msg := make([]byte, 2048)
+	off, err := packTxtString(s, msg, 0)
+	if err != nil {
+		return nil, err
+	}
+	return msg[:off], nil
+}
+
+// VerifC05PackOctetString runs packOctetString on a fresh buffer.
+func VerifC05PackOctetString(s string) ([]byte, error) {
+	msg := make([]byte, 2048)
+	off, err := packOctetString(s, msg, 0)
+	if err != nil {
+		return nil, err
+	}
+	return msg[:off], nil
+}
+
+// VerifC05UnpackString runs unpackString on one length-prefixed string.
+func VerifC05UnpackString(msg []byte) (string, int, error) { return unpackString(msg, 0) }
+
+// VerifC05Tok is one token of the zone lexer.
+type VerifC05Tok struct {
+	Value uint8
+	Token string
+	Torc  uint16
+	Err   bool
+}
+
+// VerifC05Lex runs the zone lexer over s and returns every token up to and
+// including the first zNewline / error, or up to end of input. If rdata is
+// true the lexer starts in the state it is in after the blank that follows
+// the RR type of a record (owner and type seen, blank delivered).
+func VerifC05Lex(s string, rdata bool) []VerifC05Tok {
+	zl := newZLexer(strings.NewReader(s))
+	if rdata {
+		verifC05RdataState(zl)
+	}
+	var out []VerifC05Tok
+	for i := 0; i < 1<<16; i++ {
+		l, ok := zl.Next()
+		if !ok {
+			break
+		}
+		out = append(out, VerifC05Tok{l.value, l.token, l.torc, l.err})
+		if l.err || l.value == zNewline {
+			break
+		}
+	}
+	return out
+}
+
+// Token kinds of the lexer, for the harness.
+const (
+	VerifC05ZString  = zString
+	VerifC05ZBlank   = zBlank
+	VerifC05ZQuote   = zQuote
+	VerifC05ZNewline = zNewline
+	VerifC05ZRrtpe   = zRrtpe
+	VerifC05ZOwner   = zOwner
+	VerifC05ZClass   = zClass
+)
+
+// verifC05RdataState puts a fresh lexer into the state it has after
+// delivering the blank that follows the RR type: owner and type seen, blank
+// suppression on, and the reused token struct holding that blank.
+func verifC05RdataState(zl *zlexer) {
+	zl.owner = false
+	zl.rrtype = true
+	zl.space = true
+	zl.l = lex{token: " ", value: zBlank, line: 1}
+}
+
+// VerifC05TxtSlice lexes s as RDATA (see VerifC05Lex) and runs
+// endingToTxtSlice on it.
+func VerifC05TxtSlice(s string) ([]string, bool) {
+	zl := newZLexer(strings.NewReader(s))
+	verifC05RdataState(zl)
+	r, e := endingToTxtSlice(zl, "bad")
+	return r, e == nil
+}
+
+// VerifC05EndingToString lexes s as RDATA and runs endingToString on it.
+func VerifC05EndingToString(s string) (string, bool) {
+	zl := newZLexer(strings.NewReader(s))
+	verifC05RdataState(zl)
+	r, e := endingToString(zl, "bad")
+	return r, e == nil
+}
